@@ -112,22 +112,33 @@ func Record(seed int64, n int, out string) (int, error) {
 			why := []string{"cancel", "deadline"}[r.Intn(2)]
 			pre := mode == 2
 			k := shape.Printed + 1 + r.Intn(300)
-			files := newRunFiles()
-			vars := append([]string{"K", fmt.Sprint(k), "pad", fmt.Sprint(r.Intn(1000))}, files.vars(true)...)
-			// Config.Output is a bufio.Writer when the lines go to buffered standard output (and sometimes when they go to a file)
-			o := run(runOpts{src: src, input: input, vars: vars, why: why, pre: pre, hooked: true,
-				buffered: dest == "buffered" || (dest == "file" && r.Intn(2) == 0), files: files})
+			pad := r.Intn(1000)
+			bufFile := r.Intn(2) == 0
+			var o Obs
 			got := 0
-			switch {
-			case pre:
-			case dest == "file":
-				got = linesDelivered(readFile(files.outf), shape.Printed)
-			case dest == "cmd":
-				_, got = drained(files.cmdf, shape.Printed)
-			default:
-				got = linesDelivered(o.Out, shape.Printed)
+			// (a command destination depends on the machine -- os/exec closes the pipe to a command 250 ms after its
+			// context is done --: a run that lost lines there is repeated, up to three in all, and the last one recorded)
+			for try := 0; try < 3; try++ {
+				files := newRunFiles()
+				vars := append([]string{"K", fmt.Sprint(k), "pad", fmt.Sprint(pad)}, files.vars(true)...)
+				// Config.Output is a bufio.Writer when the lines go to buffered standard output (and sometimes when they go to a file)
+				o = run(runOpts{src: src, input: input, vars: vars, why: why, pre: pre, hooked: true,
+					buffered: dest == "buffered" || (dest == "file" && bufFile), files: files})
+				got = 0
+				switch {
+				case pre:
+				case dest == "file":
+					got = linesDelivered(readFile(files.outf), shape.Printed)
+				case dest == "cmd":
+					_, got = drained(files.cmdf, shape.Printed)
+				default:
+					got = linesDelivered(o.Out, shape.Printed)
+				}
+				files.remove()
+				if dest != "cmd" || pre || got >= shape.Printed {
+					break
+				}
 			}
-			files.remove()
 			if o.Result == "parse-error" {
 				return t, fmt.Errorf("driver program rejected: %s\n%s", o.ErrText, src)
 			}
